@@ -25,10 +25,14 @@ pub struct Case {
     /// how the source ontology is constructed (default: own v3 bytes)
     #[serde(default = "super::c13::default_path")]
     pub path: PathSel,
+    /// when non-empty: the source's modifier roots are replaced (through `modifier_mut()`) by the terms
+    /// these picks select
+    #[serde(default)]
+    pub custom_modifier: Vec<u16>,
 }
 
 pub fn check(c: &Case, stats: &mut Stats) -> CheckResult {
-    let src = match build_path(&c.facts, c.path, &JaxNoise::default()) {
+    let mut src = match build_path(&c.facts, c.path, &JaxNoise::default()) {
         Ok(o) => o,
         Err(e) => return fail(format!("construct/{}", c.path.name()), e),
     };
@@ -36,7 +40,13 @@ pub fn check(c: &Case, stats: &mut Stats) -> CheckResult {
     let m = Model::new(&src_facts);
     stats.count(&format!("path:{}", c.path.name()), 1);
     ensure!(m.has(c.root) && !c.leaves.is_empty() && c.leaves.iter().all(|l| m.has(*l)), "harness/bad-case", "root/leaves must be terms of the source");
-    let mods = m.default_modifier().unwrap_or_default();
+    let mut mods = m.default_modifier().unwrap_or_default();
+    if !c.custom_modifier.is_empty() {
+        // user-defined modifier roots (any terms of the source)
+        mods = c.custom_modifier.iter().map(|p| m.ids[pick(*p, m.ids.len())]).collect();
+        *src.modifier_mut() = mods.iter().map(|t| hpo::HpoTermId::from_u32(*t)).collect();
+        stats.label("custom-modifier-roots");
+    }
     let inside: BTreeSet<u32> = {
         let mut s = m.desc[m.i(c.root)].clone();
         s.insert(c.root);
@@ -155,6 +165,9 @@ pub fn check(c: &Case, stats: &mut Stats) -> CheckResult {
     if c.leaves.len() > 30 {
         stats.label("leaves>30");
     }
+    if kept.iter().any(|t| m.names[m.i(*t)].len() > 255) {
+        stats.label("name-longer-than-255-bytes");
+    }
     if c.leaves.contains(&c.root) {
         stats.label("leaf==root");
     }
@@ -185,10 +198,19 @@ pub fn check(c: &Case, stats: &mut Stats) -> CheckResult {
 
 fn strategy(tier: Tier) -> BoxedStrategy<Case> {
     let max = if tier == Tier::Quick { 18 } else { 50 };
-    let cfg = GenCfg::small().terms(2, max).recs(6).standard().with_flags(true).names(NameMode::Capped);
+    // names up to 300 bytes; for the binary paths they are cut to the 255 bytes the format stores
+    let cfg = GenCfg::small().terms(2, max).recs(6).standard().with_flags(true).names(NameMode::Rich);
     let paths = prop_oneof![6 => Just(PathSel::Bin(3)), 2 => Just(PathSel::Bin(2)), 1 => Just(PathSel::Bin(1)), 2 => Just(PathSel::Jax), 1 => Just(PathSel::JaxT), 1 => Just(PathSel::RoundTrip), 1 => Just(PathSel::BuilderDefaults)];
-    (gen::facts(cfg), paths, prop_oneof![2 => Just(None), 3 => any::<u16>().prop_map(Some)], prop_oneof![19 => vec((any::<u16>(), 0u8..12), 1..=6), 1 => vec((any::<u16>(), 0u8..12), 31..=45)])
-        .prop_map(|(facts, path, root_pick, leaf_picks)| {
+    (gen::facts(cfg), paths, prop_oneof![2 => Just(None), 3 => any::<u16>().prop_map(Some)], prop_oneof![19 => vec((any::<u16>(), 0u8..12), 1..=6), 1 => vec((any::<u16>(), 0u8..12), 31..=45)], prop_oneof![5 => Just(Vec::new()), 1 => vec(any::<u16>(), 1..=3)])
+        .prop_map(|(mut facts, path, root_pick, leaf_picks, custom_modifier)| {
+            if !matches!(path, PathSel::Jax | PathSel::JaxT | PathSel::BuilderDefaults) {
+                for t in facts.terms.iter_mut() {
+                    t.name = char_prefix(&t.name, 255).to_string();
+                }
+                for r in facts.recs[GENE].iter_mut() {
+                    r.name = char_prefix(&r.name, 255).to_string();
+                }
+            }
             let m = Model::new(&facts);
             let root = match root_pick {
                 None => 1,
@@ -210,7 +232,7 @@ fn strategy(tier: Tier) -> BoxedStrategy<Case> {
                     leaves.push(inside[pick(p, inside.len())]);
                 }
             }
-            Case { facts, root, leaves, path }
+            Case { facts, root, leaves, path, custom_modifier }
         })
         .boxed()
 }
@@ -235,7 +257,7 @@ impl Property for C14 {
         }
     }
     fn required_labels(&self, _tier: Tier) -> Vec<&'static str> {
-        vec!["nontrivial", "leaves>30", "leaf-outside-root-subtree", "duplicate-leaves", "leaf==root", "leaf-is-ancestor-of-leaf", "retained-modifier-term-with-record", "record-only-on-retained-modifier-root", "terms-pruned", "record-dropped", "leaves>255"]
+        vec!["nontrivial", "leaves>30", "leaf-outside-root-subtree", "duplicate-leaves", "leaf==root", "leaf-is-ancestor-of-leaf", "retained-modifier-term-with-record", "record-only-on-retained-modifier-root", "terms-pruned", "record-dropped", "leaves>255", "custom-modifier-roots", "name-longer-than-255-bytes"]
     }
     fn run_generated(&self, tier: Tier, seed: u64, n: u64, stats: &mut Stats) -> Option<(Value, Failure)> {
         run_typed(strategy(tier), seed, n, stats, check)
@@ -251,7 +273,7 @@ impl Property for C14 {
             let leaves: Vec<u32> = (0..v.3 as usize).map(|i| ids[(i * 7) % ids.len()]).filter(|t| *t != 1).collect();
             let m = Model::new(&facts);
             let root = if leaves.iter().all(|l| *l == 118 || m.anc[m.i(*l)].contains(&118)) { 118 } else { 1 };
-            let c = Case { facts, root, leaves, path: PathSel::Bin(3) };
+            let c = Case { facts, root, leaves, path: PathSel::Bin(3), custom_modifier: vec![] };
             let r = check(&c, stats);
             if r.is_ok() {
                 stats.label("leaves>255");
